@@ -304,7 +304,44 @@ func (e *Enc) doCall(ci ssa.CallInstruction, c *ssa.CallCommon, argOverride []Te
 	if err := e.runHooks("after", ci, args, res); err != nil {
 		return nil, err
 	}
+	// other threads may run between this step and the next one
+	if err := e.envStep(ci); err != nil {
+		return nil, err
+	}
 	return res, nil
+}
+
+// envStep applies the function's declared interference (if any): the shared state changes as the
+// environment fnspec allows. Applied at entry and after every call (atomic operations are calls).
+func (e *Enc) envStep(ci ssa.CallInstruction) error {
+	if e.fc == nil || len(e.fc.Interference) == 0 {
+		return nil
+	}
+	if ci != nil {
+		if _, isDefer := ci.(*ssa.Defer); isDefer {
+			return nil
+		}
+	}
+	for _, d := range e.fc.Interference {
+		spec := e.prog.cs.FnSpecs[d.Spec]
+		if spec == nil {
+			return fmt.Errorf("%s: interference: unknown fnspec %s", e.key, d.Spec)
+		}
+		se := e.specEnv(e.entry, e.cur, nil)
+		var args []Term
+		for _, ax := range d.Args {
+			v, err := se.eval(ax)
+			if err != nil {
+				return fmt.Errorf("%s: interference %s argument: %v", e.key, d.Spec, err)
+			}
+			args = append(args, v.t)
+		}
+		if _, err := e.applyContract(nil, spec, nil, "env:"+d.Spec, args, nil, nil, nil); err != nil {
+			return err
+		}
+		e.assumed["interference: between any two steps of "+e.key+" other threads change the shared state only as fnspec "+d.Spec+" allows (rely condition; each atomic operation is one indivisible step)"] = true
+	}
+	return nil
 }
 
 func (e *Enc) evalArgs(c *ssa.CallCommon) []Term {
@@ -383,7 +420,7 @@ func (e *Enc) doCallInner(ci ssa.CallInstruction, c *ssa.CallCommon, args []Term
 				if mfn == nil {
 					return nil, fmt.Errorf("%s: dyncall %s: method %s not found", e.key, name, target)
 				}
-				mfc := e.prog.contractOf(mfn)
+				mfc := e.contractOf(mfn)
 				if mfc == nil || !d.HasArgs || len(d.Args) < 1 {
 					return nil, fmt.Errorf("%s: dyncall %s: method %s needs a contract and a receiver argument", e.key, name, target)
 				}
@@ -464,7 +501,7 @@ func (e *Enc) callStatic(ci ssa.CallInstruction, c *ssa.CallCommon, fn *ssa.Func
 			}
 		}
 	}
-	fc := e.prog.contractOf(fn)
+	fc := e.contractOf(fn)
 	if fc == nil {
 		e.assumed["call of "+shortFuncName(fn)+" (no contract): all heaps havocked, assumed not to panic"] = true
 		e.cur = e.havocAll(e.cur)
@@ -761,7 +798,7 @@ func (e *Enc) runDefers(panicking bool) error {
 			var extra map[string]specVal
 			recovers := false
 			if fn := c.StaticCallee(); fn != nil {
-				if fc := e.prog.contractOf(fn); fc != nil && fc.Recovers {
+				if fc := e.contractOf(fn); fc != nil && fc.Recovers {
 					recovers = true
 					extra = map[string]specVal{}
 					if panicking {
@@ -1121,7 +1158,7 @@ func (e *Enc) execMakeClosure(x *ssa.MakeClosure) error {
 		e.sc.Assert(Eq(App(bt.Sort, fname, e.vals[x]), bt))
 	}
 	// closure-state invariant must hold at creation
-	if fc := e.prog.contractOf(fn); fc != nil && len(fc.Invs) > 0 {
+	if fc := e.contractOf(fn); fc != nil && len(fc.Invs) > 0 {
 		se := &specEnv{e: e, old: e.cur, cur: e.cur, binds: map[string]specVal{}, noLocal: true, pkg: fn.Pkg.Pkg}
 		for i, fv := range fn.FreeVars {
 			se.binds[fv.Name()] = specVal{t: binds[i], typ: fv.Type(), cell: true}
@@ -1144,7 +1181,7 @@ func (e *Enc) execGo(x *ssa.Go) error {
 		return err
 	}
 	if fn := c.StaticCallee(); fn != nil {
-		if fc := e.prog.contractOf(fn); fc != nil {
+		if fc := e.contractOf(fn); fc != nil {
 			for i := range args {
 				e.argTerm(c, args, i)
 			}
@@ -1442,7 +1479,7 @@ func (e *Enc) callWrites(li *loopInfo, ci ssa.CallInstruction, ws writeSets) boo
 		fc = nil
 	} else if f := c.StaticCallee(); f != nil {
 		fn = f
-		fc = e.prog.contractOf(f)
+		fc = e.contractOf(f)
 	} else if e.fc != nil {
 		name := e.dynName(c.Value)
 		for _, d := range e.fc.DynCalls {
@@ -1562,7 +1599,7 @@ func (e *Enc) callModifies(ci ssa.CallInstruction) (map[string]string, bool) {
 	if fn.Pkg == nil || !strings.HasPrefix(fn.Pkg.Pkg.Path(), e.prog.modPath) || len(fn.Blocks) == 0 {
 		return e.externalModNames(fn.String(), c), false
 	}
-	fc := e.prog.contractOf(fn)
+	fc := e.contractOf(fn)
 	if fc == nil {
 		return nil, true
 	}
@@ -1787,4 +1824,14 @@ func lockSetOf(fn *ssa.Function, depth int, visiting map[*ssa.Function]bool) []l
 		lockSetCache[fn] = out
 	}
 	return out
+}
+
+
+// contractOf: the callee's contract as seen from the function being verified (same variant).
+func (e *Enc) contractOf(f *ssa.Function) *FuncContract {
+	v := ""
+	if e.fc != nil {
+		v = e.fc.Variant
+	}
+	return e.prog.contractOfVariant(f, v)
 }
